@@ -67,7 +67,12 @@ func (r *DecodeResult) decode(data []byte) error {
 			}
 
 			// Skip() returns the entire field contents, both the tag and the value, so we need to skip past the tag
-			val = val[csproto.SizeOfTagKey(tag):]
+			// (the key as it was read: it is not necessarily encoded in the minimal number of bytes)
+			_, keyLen, err := csproto.DecodeVarint(val)
+			if err != nil {
+				return err
+			}
+			val = val[keyLen:]
 			fd.wt = wt
 			fd.data = append(fd.data, val)
 		case csproto.WireTypeLengthDelimited:
